@@ -161,6 +161,9 @@ def run(tier, seed):
 
     add("SIGINT during a long action", e2e_play(), 8, 2, sig=(1.0, signal.SIGINT), expect_fail=True)
     add("SIGTERM during a long action", e2e_play(), 8, 2, sig=(1.0, signal.SIGTERM))
+    # cleanups are not interruptible: after a signal the final cleanup still runs to completion
+    add("SIGTERM during a long action, cleanup takes a second", e2e_play(cleanup="sleep 1; " + CLEAN), 12, 2, sig=(1.5, signal.SIGTERM))
+    add("SIGINT during a long action, cleanup takes a second", e2e_play(cleanup="sleep 1; " + CLEAN), 12, 2, sig=(1.5, signal.SIGINT), expect_fail=True)
     add("a concurrent line fails while a long action runs", e2e_play(second_line="bad"), 8, 2, expect_fail=True)
     add("audit foul with -S during a long action", e2e_play(audience="audience\n  bob audits throughout\n  bob expects always: mood == 'clear'\nend\n"), 8, 2, args=["-S"], expect_fail=True)
     add("evaluation error", e2e_play(scene_x="quick", audience="audience\n  bob audits throughout\n  bob expects always: t < 'a'\nend\n"), 8, 2, expect_fail=True)
